@@ -349,7 +349,7 @@ func runGroup(c *Case) *Obs {
 		return runHammer(c)
 	}
 	h := &hlog{}
-	parent, cancel := context.WithCancel(context.Background())
+	parent, cancel := zooContext(0)
 	sc := &groupScen{h: h, g: xsync.NewGroup(parent), cancel: cancel,
 		gates: map[int]*pgate{}, kinds: map[int]string{}, started: map[int]bool{}, regDone: map[int]chan struct{}{},
 		trigFn: map[int]func(){}, usedTrig: map[int]bool{}, usedStop: map[int]bool{},
